@@ -199,3 +199,130 @@ Definition alloc_select (qs : quota_spec) (orders : list (list C)) (votes : wpro
   | inl el => inl (map fst el)
   | inr e => inr e
   end.
+
+(* ================================================================ the repairs of wave 6 (fixes/C12-allocated-score-*.diff)
+   The definitions above stay as they are: the code as pinned.  The [_x] definitions take the repairs applied:
+   ra_exhausted  fixes/C12-allocated-score-exhausted  _find_best_votes starts from no best score (no ValueError on an
+                 empty ballot / no ballots left); when no remaining ballot scores anybody the candidates that may still
+                 gain a seat stand level at zero (no IndexError), and the loop ends when there is none
+   ra_tieseats   fixes/C12-allocated-score-tie-seats  the selector lists a tie once per seat it contests *)
+Record arepairs := { ra_exhausted : bool; ra_tieseats : bool }.
+Definition apinned : arepairs := {| ra_exhausted := false; ra_tieseats := false |}.
+Definition arepaired : arepairs := {| ra_exhausted := true; ra_tieseats := true |}.
+
+(* best_score = None until the first ballot (in dict order) that scores the candidate *)
+Definition first_score (cur : wprofile) (c : C) : option Q :=
+  match flat_map (fun bw : sballot * Q => match dget (fst bw) c with Some s => [s] | None => [] end) cur with
+  | [] => None
+  | s :: _ => Some s
+  end.
+
+Fixpoint fraction_out_r (fuel : nat) (cur : wprofile) (c : C) (ss : Q) : wprofile + aerr :=
+  if Qle_bool ss 0 then inl cur else
+  match fuel with
+  | O => inr AE_fuel
+  | S f =>
+      match first_score cur c with
+      | None => inl cur                                         (* best_votes = []: current_size = 0 *)
+      | Some bs0 =>
+          let bs := best_score cur c bs0 in
+          let size := Qred (qsum (map snd (filter (fun bw => is_best c bs (fst bw)) cur))) in
+          if Qeq_bool size 0 then inl cur
+          else if Qle_bool size ss then
+            fraction_out_r f (filter (fun bw => negb (is_best c bs (fst bw))) cur) c (Qred (ss - size))
+          else
+            let fr := Qred ((size - ss) / size) in
+            inl (map (fun bw => if is_best c bs (fst bw) then (fst bw, Qred (snd bw * fr)) else bw) cur)
+      end
+  end.
+
+Definition fraction_out_x (ra : arepairs) (fuel : nat) (cur : wprofile) (c : C) (ss : Q) : wprofile + aerr :=
+  if ra_exhausted ra then fraction_out_r fuel cur c ss else fraction_out fuel cur c ss.
+
+Definition subtract_votes_x (ra : arepairs) (cur : wprofile) (c : C) (gained : Z) (mx : option Z) (quota : Q)
+    : wprofile + aerr :=
+  match fraction_out_x ra (S (length cur)) cur c quota with
+  | inr e => inr e
+  | inl cur' =>
+      match mx with
+      | Some m => if (gained =? m)%Z then inl (subset_out c cur') else inl cur'
+      | None => inl cur'
+      end
+  end.
+
+Definition elect_one_x (ra : arepairs) (cf : acfg) (cur : wprofile) (el : elected) (c : C) : (wprofile * elected) + aerr :=
+  let el' := eincr el c in
+  match subtract_votes_x ra cur c (eget el' c + dget_or (ac_prev cf) c 0)%Z (dget (ac_max cf) c) (ac_quota cf) with
+  | inr e => inr e
+  | inl cur' => inl (cur', el')
+  end.
+
+Fixpoint elect_all_x (ra : arepairs) (cf : acfg) (tied : list C) (cur : wprofile) (el : elected)
+    : (wprofile * elected) + aerr :=
+  match tied with
+  | [] => inl (cur, el)
+  | c :: t => match elect_one_x ra cf cur el c with
+              | inr e => inr e
+              | inl (cur', el') => elect_all_x ra cf t cur' el'
+              end
+  end.
+
+(* max_seats.get(cand) is None or max_seats[cand] > elected.get(cand, 0) + prev_gains.get(cand, 0) *)
+Definition may_gain (cf : acfg) (el : elected) (c : C) : bool :=
+  match dget (ac_max cf) c with
+  | None => true
+  | Some m => (eget el c + dget_or (ac_prev cf) c 0 <? m)%Z
+  end.
+
+(* the score sums of a round; [cands] = the candidates scored by the original votes *)
+Definition round_scores (ra : arepairs) (cands : list C) (cf : acfg) (cur : wprofile) (el : elected) : list (C * Q) :=
+  match sum_scores cur with
+  | [] => if ra_exhausted ra then map (fun c => (c, 0)) (filter (may_gain cf el) cands) else []
+  | agg => agg
+  end.
+
+Definition alloc_step_x (ra : arepairs) (cands : list C) (cf : acfg) (cur : wprofile) (el : elected) (rem : nat) : astep :=
+  match rem with
+  | O => AS_done el
+  | S _ =>
+      match get_n_best Qle_bool (round_scores ra cands cf cur el) 1 with
+      | [] => if ra_exhausted ra then AS_done el                 (* nobody may gain a seat any more: break *)
+              else AS_err AE_index
+      | TieR t :: _ =>
+          if Nat.leb (length t) rem then
+            match elect_all_x ra cf (tie_iter (ac_orders cf) t) cur el with
+            | inr e => AS_err e
+            | inl (cur', el') => AS_next cur' el' (rem - length t)
+            end
+          else AS_done (el ++ [(TieR t, Z.of_nat rem)])
+      | Cand c :: _ =>
+          match elect_one_x ra cf cur el c with
+          | inr e => AS_err e
+          | inl (cur', el') => AS_next cur' el' (rem - 1)
+          end
+      end
+  end.
+
+Fixpoint alloc_loop_x (ra : arepairs) (cands : list C) (fuel : nat) (cf : acfg) (cur : wprofile) (el : elected) (rem : nat)
+    : elected + aerr :=
+  match fuel with
+  | O => inr AE_fuel
+  | S f => match alloc_step_x ra cands cf cur el rem with
+           | AS_done e => inl e
+           | AS_err e => inr e
+           | AS_next cur' el' rem' => alloc_loop_x ra cands f cf cur' el' rem'
+           end
+  end.
+
+Definition alloc_distribute_x (ra : arepairs) (qs : quota_spec) (orders : list (list C)) (votes : wprofile) (n : nat)
+    (prev mx : list (C * Z)) : elected + aerr :=
+  if quota_divides_by_seats qs && Nat.eqb n 0 then inr AE_zerodiv else
+  alloc_loop_x ra (cands_score votes) (S n) (alloc_cfg qs orders votes n prev mx) votes [] n.
+
+(* repaired: [cand for cand, n in elected.items() for i in range(n)] *)
+Definition alloc_select_x (ra : arepairs) (qs : quota_spec) (orders : list (list C)) (votes : wprofile) (n : nat)
+    : list (res C) + aerr :=
+  match alloc_distribute_x ra qs orders votes n [] (map (fun c => (c, 1%Z)) (all_scored votes)) with
+  | inl el => inl (if ra_tieseats ra then flat_map (fun rk => repeat (fst rk) (Z.to_nat (snd rk))) el else map fst el)
+  | inr e => inr e
+  end.
